@@ -21,21 +21,23 @@ type GatedWriter struct {
 var _ io.Writer = &GatedWriter{}
 
 // Flush tells the GatedWriter to flush any buffered data and to stop
-// buffering.
+// buffering. The buffered data is written out while the lock is held, so
+// that a concurrent Write cannot overtake it.
 func (w *GatedWriter) Flush() {
 	w.lock.Lock()
-	w.flush = true
-	w.lock.Unlock()
+	defer w.lock.Unlock()
 
+	w.flush = true
 	for _, p := range w.buf {
-		w.Write(p)
+		w.Writer.Write(p) //nolint:errcheck
 	}
 	w.buf = nil
 }
 
 func (w *GatedWriter) Write(p []byte) (n int, err error) {
-	w.lock.RLock()
-	defer w.lock.RUnlock()
+	// The buffer is modified below, so this needs the exclusive lock.
+	w.lock.Lock()
+	defer w.lock.Unlock()
 
 	if w.flush {
 		return w.Writer.Write(p)
